@@ -31,6 +31,7 @@ HEADER = 'From LP Require Import Prelude.Py Ast.AstLite Ast.AuxStr Ast.Select As
 F_MULTI = 'C09-multi-name-import-statement'
 F_WRAPPED = 'C09-wrapped-methods-of-imported-classes'
 F_SUBPKG = 'C09-subpackage-init-not-selected'
+F_DEADLINK = 'C09-dangling-symlink-in-selected-package'
 
 
 # ---------------------------------------------------------------------------------------
@@ -140,6 +141,9 @@ def py_e2e_spec(case, t, e):
     """returns list of (why, finding)"""
     if e.get('malformed'):
         return []       # the generated program fails under plain python too: skipped, counted in coverage
+    if e['rc'] != 0 and 'ValueError: modpath=' in e['stderr'] and 'does not exist' in e['stderr'] and dead_link_hit(case):
+        return [('kernprof dies with ValueError before the program runs: a dangling *.py symlink below a selected package',
+                 F_DEADLINK)]
     if e['keys'] is None or e['rc'] != 0:
         return [('kernprof failed: rc=%s %s' % (e['rc'], e['stderr'][-300:]), None)]
     base_keys = {(f, n) for f, _l, n in e['keys'] if not os.path.isabs(f)}
@@ -205,8 +209,24 @@ def py_e2e_spec(case, t, e):
     return fails
 
 
+def dead_link_hit(case):
+    """a dangling *.py symlink sits below a package the selection descends into"""
+    dirs = {os.path.dirname(d) for d in case.get('dead_links') or []}
+    sel = set(case.get('S_h') or [])
+    return any(os.path.dirname(i['path']) in dirs or any(os.path.dirname(i['path']).startswith(x + '/') for x in ())
+               for m, i in case['mods'].items() if i['is_pkg'] and m in sel) or \
+        any(any(d.startswith(os.path.dirname(i['path']) + '/') for d in case.get('dead_links') or [])
+            for m, i in case['mods'].items() if i['is_pkg'] and m in sel)
+
+
 def py_sel_resolution(case, t):
-    if case['kind'] != 'layout' or t.get('S') is None:
+    if case['kind'] != 'layout':
+        return []
+    if t.get('S') is None:
+        if t.get('err') == 'ValueError' and dead_link_hit(case):
+            return [('resolving the selection raises ValueError: a dangling *.py symlink below a selected package', F_DEADLINK)]
+        if t.get('err'):
+            return [('resolving the selection raised %s' % t['err'], None)]
         return []
     fails = []
     got, want = set(t['S']), set(case['S_h'])
@@ -225,15 +245,15 @@ def gen_cases(tier, rnd, root):
     n_lay, n_e2e, n_tree, n_mod = (96, 56, 220, 50) if tier == 'quick' else (1500, 500, 5000, 800)
     cases = []
     for k in range(n_lay):
-        variant = {1: 'twins', 4: 'symlink', 6: 'twins'}.get(k % 8)
-        c = G.gen_layout_case(rnd, e2e=k < n_e2e, wrapped=(k % 3 == 0), variant=variant)
+        variant = {1: 'twins', 4: 'symlink', 6: 'twins', 7: 'module_path_link'}.get(k % 8)
+        c = G.gen_layout_case(rnd, e2e=k < n_e2e, wrapped=(k % 3 == 0), variant=variant, dead_links=True)
         cases.append(c)
     for k in range(n_tree):
         cases.append(G.gen_tree_case(rnd, module_mode=False))
     for k in range(n_mod):
         cases.append(G.gen_tree_case(rnd, module_mode=True))
     # the canonical replays of the candidate findings are always included
-    for fid in (F_MULTI, F_WRAPPED, F_SUBPKG):
+    for fid in (F_MULTI, F_WRAPPED, F_SUBPKG, F_DEADLINK):
         p = core.VERIF / 'findings' / (fid + '.json')
         if p.exists():
             c = json.loads(p.read_text())['case']
@@ -373,6 +393,8 @@ def run(tier, seed):
         t = r.get('tree')
         if t is None or t.get('orig') is None:
             continue
+        if t.get('err') is not None:
+            continue      # the implementation raised: nothing to compare; reported by the python-side spec
         try:
             rows.append((i, c09_row(c, t)))
         except ValueError as e:
@@ -404,7 +426,7 @@ def run(tier, seed):
     for i in sorted(py_idx - (coq_sel | coq_whole)):
         # python found a tree-level failure Coq did not: the two readings of the spec disagree
         if any(w for j, w, _f in pyf if j == i and not w.startswith('end-to-end') and 'resolves to' not in w
-               and 'whole-script test' not in w) and model_ok:
+               and 'whole-script test' not in w and not w.startswith('resolving the selection')) and model_ok:
             res.infra_errors.append('python and Coq spec predicates disagree on case %d' % i)
     # ---- coverage ------------------------------------------------------------------------
     trees = [(c, r['tree']) for c, r in zip(cases, results) if r.get('tree') and r['tree'].get('out') is not None]
@@ -459,7 +481,10 @@ def run(tier, seed):
              'distinct by (converted tree, resolved selection, whole-script flag, --prof-imports)',
         samples=samples, in_process_tree_cases=len(trees), end_to_end_runs=e2e_n,
         layout_variants=dict(same_named_members=sum(1 for c in cases if c.get('variant') == 'twins'),
-                             symlinked_spellings=sum(1 for c in cases if c.get('variant') == 'symlink')),
+                             symlinked_spellings=sum(1 for c in cases if c.get('variant') == 'symlink'),
+                             module_through_symlinked_sys_path=sum(1 for c in cases if c.get('variant') == 'module_path_link'),
+                             namespace_directories=sum(1 for c in cases if any(i.get('ns') for i in (c.get('mods') or {}).values())),
+                             dangling_symlinks=sum(1 for c in cases if c.get('dead_links'))),
         end_to_end_malformed_skipped=sum(1 for r in results if (r.get('e2e') or {}).get('malformed')),
         tree_depth_histogram={str(k): v for k, v in sorted(depths.items())}, import_forms=styles,
         selection_spellings=spell,
